@@ -78,7 +78,72 @@ PROPS = {
         rule="hdr: all 65536 descriptors, size field present iff bit 3, checksum byte correct / off by one bit / two others (quick) or all 256 (thorough); every case non-trivial",
         modelled="ParseHeaders / initR in Reader.v", strength="full",
     ),
-     "C13": dict(
+     "C02": dict(
+        prop_files=["PropC02.v"], components=["ws", "rs"],
+        level_text="Writer side: theorem C02_writer — for every option list the Writer accepts (modern frames), every split of the input into Write calls with Flush calls anywhere, every call succeeds, the Writer ends closed and the emitted bytes are accepted by the strict frame specification with exactly the input as content; C02_readfrom: a single ReadFrom emits the same frame. Reader side: the Reader model delivers exactly what the specification defines for every byte string it accepts (ReaderProofs.v: reader_complete / reader_read_eq_writeto, see evidence for which are closed), so the composition decodes to the input followed by a clean end of stream for Read with any buffer sizes and for WriteTo. The Writer, Reader models are validated on every run against the implementation over the option matrix (4 block sizes x block checksum x content checksum x size x 10 levels x concurrency 1/2/4 x legacy), inputs {0,1,13,bs-1,bs,bs+1,2bs,3bs+7}, random partitions with flushes, ReadFrom with five fragmentation patterns, and read back with both concurrency settings through Read (mixed buffer sizes) and WriteTo.",
+        level_note="Concurrency: the models are sequential; concurrent sessions are compared with the same model (their observable results are equal) and covered by C08's pipeline theorems. Legacy frames: validated by correspondence and round-trip oracles, not covered by the theorems. Trusted: as C01.",
+        rule="ws: option matrix x inputs x partitions (48 sessions quick), zero-checksum inputs, ReadFrom of k*blocksize, all op sequences up to length 3 over 7 ops in both modes (798), random longer sequences, sink faults at every call; rs: valid frames x read patterns x fragmentation, every prefix, bit flips at every byte, splices, dependent-block frames from an independent encoder, hostile fields, source faults, all Reader op sequences up to length 3; non-trivial = session with >= 3 ops / input > 11 bytes",
+        modelled="writer.go, reader.go, lz4stream/{frame,block}.go, state.go, options.go as Writer.v / Reader.v / FrameImpl.v", strength="Writer side full (modern); Reader side as stated in evidence",
+    ),
+    "C05": dict(
+        prop_files=["PropC05.v"], components=['rs'],
+        level_text="PROVISIONAL: header-level theorems closed; the Reader theorems for this property are being integrated (see evidence for the theorem list of this run). The Reader model is validated against the implementation on every run and the frame specification is applied to the implementation's behaviour as an oracle.",
+        level_note="provisional", rule="rs / ws (see C02)", modelled="as C02", strength="provisional",
+    ),
+    "C06": dict(
+        prop_files=["PropC06.v"], components=['rs'],
+        level_text="PROVISIONAL: header-level theorems closed; the Reader theorems for this property are being integrated (see evidence for the theorem list of this run). The Reader model is validated against the implementation on every run and the frame specification is applied to the implementation's behaviour as an oracle.",
+        level_note="provisional", rule="rs / ws (see C02)", modelled="as C02", strength="provisional",
+    ),
+    "C07": dict(
+        prop_files=["PropC07.v"], components=['rs'],
+        level_text="PROVISIONAL: header-level theorems closed; the Reader theorems for this property are being integrated (see evidence for the theorem list of this run). The Reader model is validated against the implementation on every run and the frame specification is applied to the implementation's behaviour as an oracle.",
+        level_note="provisional", rule="rs / ws (see C02)", modelled="as C02", strength="provisional",
+    ),
+    "C16": dict(
+        prop_files=["PropC16.v"], components=['rs', 'dec'],
+        level_text="PROVISIONAL: header-level theorems closed; the Reader theorems for this property are being integrated (see evidence for the theorem list of this run). The Reader model is validated against the implementation on every run and the frame specification is applied to the implementation's behaviour as an oracle.",
+        level_note="provisional", rule="rs / ws (see C02)", modelled="as C02", strength="provisional",
+    ),
+    "C17": dict(
+        prop_files=["PropC17.v"], components=['ws', 'rs'],
+        level_text="PROVISIONAL: header-level theorems closed; the Reader theorems for this property are being integrated (see evidence for the theorem list of this run). The Reader model is validated against the implementation on every run and the frame specification is applied to the implementation's behaviour as an oracle.",
+        level_note="provisional", rule="rs / ws (see C02)", modelled="as C02", strength="provisional",
+    ),
+    "C08": dict(
+        prop_files=["PropC08.v"], components=["pipe", "piper", "ws"],
+        level_text="Theorems about the labelled transition system of the concurrent Writer pipeline (producer, one worker per block, ordering goroutine, bounded queue, per-block channels, buffer ownership), for EVERY interleaving, every concurrency level, every number of blocks and every set of failing sink writes: C08_order (blocks reach the sink in submission order, exactly the prefix before the first failure), C08_ownership (no buffer is read after release or while its worker runs), C08_no_deadlock (every reachable state is final or can step), C08_terminates (explicit decreasing measure), C08_no_leak (after Close returned: ordering goroutine exited, nothing queued, no worker blocked), C08_checker_sound (the trace checker accepts every run of the model). Tie to the code: hook call sites (verif tag) at every channel operation record traces and perturb scheduling; on every run 120 perturbed, buffer-poisoned sessions (Write/Flush/Close/Reset/reuse, sink faults, concurrency 2..16) are checked by the EXTRACTED checker, compared byte for byte with the sequential output, read back by a perturbed concurrent Reader (also on a corrupted frame), checked for leftover goroutines, and repeated under the race detector.",
+        level_note="Partial by nature: the theorems are about the protocol model; the Go scheduler, memory model and sync.Pool are assumed; the trace check is inclusion of OBSERVED traces in the checker's language. The Reader pipeline has no LTS: it is covered by the harness oracles only.",
+        rule="pipe/piper: seeded sessions (conc 2,3,4,8,16; 0..6 full blocks + tail; chunkings; Flush every 1..3 writes; reuse after Close; sink fault at a random call); non-trivial = at least two blocks",
+        modelled="Blocks.initW/close, Writer.write as PipeW.v", strength="model theorems + validated traces",
+    ),
+    "C09": dict(
+        prop_files=["PropC09.v"], components=["ws", "cr"],
+        level_text="Theorems C09_sessions / C09_frame / C09_size: every byte stream the Writer model emits for a well-formed session (any accepted option list, modern) — and the frame the compressing reader and ReadFrom emit — is accepted by the STRICT frame specification (magic, version 01, reserved bits zero, correct header checksum, block-size code 4..7, configured content size, every block within the declared maximum and decoding under the block-format specification, block and content checksums equal to reference XXH32, end mark) with exactly the input as content. C09_stored_domain_refuted keeps the open finding F10 visible: with the format's own checksum domain (stored bytes) such a frame is rejected. On every run the extracted specification validates the IMPLEMENTATION's frames (Writer, compressing reader), including inputs whose XXH32 is 0 and exact multiples of the block size.",
+        level_note="Open findings: F10 (block checksum domain; announced as KNOWN-FINDING), F17-raw (legacy raw flag, thorough tier). Legacy frames are validated by the specification oracle, not covered by the theorems.",
+        rule="ws, cr (see C02, C18)", modelled="as C02", strength="full for modern frames in the decoded checksum domain",
+    ),
+    "C14": dict(
+        prop_files=["PropC14.v"], components=["cmp", "ws", "pipe"],
+        level_text="Theorems C14_fast_state (for EVERY stale content of the fast compressor's table the output is the same), C14_hc_state (every reachable HC object behaves as a fresh one), C14_chunking (without Flush the frame depends only on the concatenation of the writes), C14_schedule_order (in every interleaving of the pipeline model blocks reach the sink in submission order). Validation: block outputs after arbitrary histories (other inputs, failed short-buffer calls, pooled objects from several goroutines) equal the history-free model; frames from concurrency 1/2/4 and perturbed schedules with poisoned pools are byte-identical to the sequential frame.",
+        level_note="Schedule independence is a theorem about the pipeline model (see C08).", rule="cmp, ws, pipe", modelled="as C01/C02/C08", strength="block and chunking full; schedules via the LTS",
+    ),
+    "C15": dict(
+        prop_files=["PropC15.v"], components=["ws", "rs"],
+        level_text="Theorem C15_sink_fault: for EVERY k, the underlying writer failing from its k-th call on, in every well-formed session: what reached the sink is a prefix of the fault-free output and some call returns the failure, Close at the latest. Reader side (source failing at its k-th call; fragmentation irrelevance) in ReaderProofs.v as listed in the evidence. Validation: sink faults at every call index of sessions (sequential compared with the model; concurrent by oracles), source faults at every call index, five fragmentation patterns (single bytes, zero-length reads, data with io.EOF, 7-byte reads).",
+        level_note="The sink model fails permanently from call k; a transient failure followed by success is outside the theorem (after a failed Flush the pending block is re-emitted).", rule="ws, rs", modelled="as C02", strength="Writer side full; Reader side per evidence",
+    ),
+    "C18": dict(
+        prop_files=["PropC18.v"], components=["cr"],
+        level_text="Theorems C18_reads / C18_complete / C18_frame_valid: for every sequence of buffer sizes the concatenated output of the compressing-reader model is a prefix of THE frame of the source for the applied options (the same frame the Writer emits), each call returns at most len(p) bytes, makes progress whenever len(p) > 0, reports io.EOF only after the whole frame, and with enough reads delivers the whole frame; that frame satisfies the strict specification with the source as content. Validated on every run against CompressingReader over buffer-size lists from {0,1,3,6,7,8,15,100,5000,70000,300000}, inputs {0,1,50,1000,bs-1,bs,bs+1,2bs}, options, fragmenting and failing sources.",
+        level_note="LegacyOption/ConcurrencyOption are not applicable to a compressing reader (model and code agree).", rule="cr", modelled="compressing_reader.go as CReader.v", strength="full",
+    ),
+    "C20": dict(
+        prop_files=["PropC20.v"], components=["lz4c"],
+        level_text="Theorems C20_flags / C20_usage / C20_options / C20_compress / C20_stdio: the option list built from the flags is exactly [BlockChecksum(-bc), BlockSize(-size), Checksum(not -sc), Level(-l), Concurrency(-c)], matching the wording of the usage strings; for any list of files every .lz4 file is the frame of its file for those options (hence, by C09, a well-formed frame that decodes to the file). Which flag feeds which option, negations, usage wording, where the level switch is evaluated and the order of the per-file calls are regenerated from compress.go by the translator on every run. The command itself is built from the working tree (replace => /repo) and run on files of sizes {0,1,100,5000,bs-1,bs,bs+1} x flag sets, one or two files, files and stdin/stdout; outputs are compared with the model, validated by the specification, compared with a library Writer configured as the usage text promises, and round-tripped through `lz4c uncompress` including permission bits.",
+        level_note="File-system behaviour (modes, pre-existing outputs: outputs are opened without O_TRUNC) is observed, not proved.", rule="lz4c", modelled="cmd/lz4c as Lz4c.v", strength="logic full; file system residue",
+    ),
+    "C13": dict(
         level_text="Theorems C13_oneshot, C13_stream, C13_state (Coq, closed under the global context) state that the one-shot and the streaming checksum models equal reference XXH32 for every byte string, every chunking (empty writes included) and every total length below 2^64. The models are tied to internal/xxh32 on every run: primes, lane seeds and rotations are re-translated from the source and the bridging lemmas re-proved; the control flow is compared differentially (one-shot, streaming, injected states around 2^32/2^64, a real >4 GiB stream).",
         level_note="Trusted: Coq kernel; translator; extraction (ExtrOcamlBasic only); the harness. The hand-written control-flow model (XXH32.v) is validated, not verified. ARM assembly variants are not modelled.",
         prop_files=["PropC13.v"],
